@@ -169,8 +169,10 @@ def lower(n, edges, kinds, guards, perm, dep_rev, twice=False):
     class Phase(ExecutionPhase):
         @property
         def depends_on(self):
-            return c04.OrderedDeps(list(reversed(roots)) if dep_rev else roots)
-    ph = Phase(name="ph", next_phase="ph", statements=stored)
+            return c04.OrderedDeps(list(reversed(roots)))
+    # the phase's own root computation is used in the default configuration; the scripted (reversed) root order only
+    # in the dep_rev configurations
+    ph = (Phase if dep_rev else ExecutionPhase)(name="ph", next_phase="ph", statements=stored)
     dag = DAGCode({"ph": ph}, "ph")
     tree = create_ast_from_phase(dag, "ph")
     if twice:
